@@ -251,7 +251,9 @@ def get_response_type(request: Request) -> Type[APIResponse]:
 def http_exception_to_response(exception: werkzeug.exceptions.HTTPException, response_type: Type[APIResponse]) \
         -> APIResponse:
     headers = exception.get_headers()
-    location = exception.get_response().location
+    # only the router's redirects carry a location (rendering the exception's own response to look for one may fail,
+    # e.g. if its description quotes input that can't be encoded)
+    location = exception.new_url if isinstance(exception, werkzeug.routing.RequestRedirect) else None
     if location is not None:
         headers.append(("Location", location))
     if exception.code and exception.code >= 400:
